@@ -294,7 +294,10 @@ _real_sessions = {}
 def _session_for(inst):
     if REAL['fd'] is None:
         return S
-    mod = type(inst).__module__
+    cls = type(inst)
+    while getattr(cls, '__generic_class__', None) is not None:     # build_node() derivatives live in the engine's module
+        cls = cls.__generic_class__
+    mod = cls.__module__
     rs = _real_sessions.get(mod)
     if rs is None:
         rs = _real_sessions[mod] = _RealSession(PROGS[mod], mod)
@@ -305,7 +308,7 @@ def _begin(nid, kwargs, inst=None):
     s = _session_for(inst) if inst is not None else S
     node = s.nodes[nid]
     run = s.run_of(kwargs)
-    if s.real and node.get('mode') != 'async':
+    if s.real and node.get('mode') not in ('async', 'async_tagged'):
         import random as _r
         import time as _t
         _t.sleep(_r.random() * REAL['jitter'])
